@@ -458,7 +458,10 @@ def compilePivot (ts : List CTarget) (g : Option (List Nat)) (pv : List KeyRef) 
   | [a, b] =>
     let one (k : KeyRef) : CM Nat :=
       match k with
-      | .idx n => if 1 ≤ n && n ≤ ts.length then .ok (n - 1) else .error (.compile "invalid PIVOT BY column index")
+      | .idx n =>
+        -- only SELECT-list targets (those with a name) can be referenced by position
+        if 1 ≤ n && n ≤ (ts.filter (fun t => t.name.isSome)).length then .ok (n - 1)
+        else .error (.compile "invalid PIVOT BY column index")
       | .expr (.col n) =>
         (match lastIndexOfName ts n with
          | some i => .ok i
@@ -471,7 +474,7 @@ def compilePivot (ts : List CTarget) (g : Option (List Nat)) (pv : List KeyRef) 
       | .ok j =>
         if i == j then .error (.compile "the two PIVOT BY columns cannot be the same column")
         else match g with
-          | none => .error (.py "TypeError")
+          | none => .error (.compile "the second PIVOT BY column must be a GROUP BY column")
           | some g => if g.contains j then .ok (some (i, j))
                       else .error (.compile "the second PIVOT BY column must be a GROUP BY column")
   | _ => .error (.py "ValueError")
